@@ -141,7 +141,7 @@ func checkC11(tier, replay string) int {
 			}
 			for ord := 1; ord <= steps[i]; ord++ {
 				for _, kind := range faultKinds(k.typ) {
-					if kind == "stall" && tier == "quick" && (ord+int(env.Seed))%4 != 0 {
+					if kind == "stall" && tier == "quick" && (ord+i+int(env.Seed))%4 != 0 {
 						continue
 					}
 					cases = append(cases, &c11Case{Type: k.typ, FrontEnd: k.fe, Scenario: k.sc, Variant: "healthy",
